@@ -38,7 +38,7 @@ static VTABLE: RawWakerVTable = RawWakerVTable::new(w_clone, w_wake, w_wake, w_d
 }
 
 #[cfg(kani)]
-mod proofs {
+pub(crate) mod proofs {
     use super::*;
     pub(crate) fn noop() {}
 
